@@ -1,7 +1,11 @@
 package props
 
 import (
+	"fmt"
 	"strings"
+	"time"
+
+	"ergo.services/ergo/gen"
 
 	"verifsim/simkit"
 )
@@ -28,11 +32,20 @@ func (c05) Components() ([]string, []string) {
 	return []string{"node (process/meta runtime, Kill, unregisterProcess, RouteTerminate*)", "act.Actor", "act.Supervisor", "act.Pool"},
 		[]string{"network disabled", "default logger disabled", "OS signals"}
 }
-func (c05) Generate(r *simkit.Rand, tier string) any { return genTCase(r, tier, true) }
-func (c05) Shrink(c any) []any                       { return shrinkTCase(c.(*TCase)) }
+func (c05) Generate(r *simkit.Rand, tier string) any {
+	if r.Chance(0.06) {
+		return &TCase{Kind: "meta", EarlyEnd: r.Range(1, 4), MetaEarly: simkit.Pick(r, 0, 0, 1, 2)}
+	}
+	return genTCase(r, tier, true)
+}
+func (c05) Shrink(c any) []any { return shrinkTCase(c.(*TCase)) }
 
 func (c05) Run(e *simkit.Env, cc any) {
 	c := cc.(*TCase)
+	if c.EarlyEnd > 0 {
+		runC05EarlyEnd(e, c)
+		return
+	}
 	t := runTarget("C05", e, c)
 	if t == nil {
 		return
@@ -207,4 +220,79 @@ func tailS(xs []string, n int) []string {
 		return xs[len(xs)-n:]
 	}
 	return xs
+}
+
+// runC05EarlyEnd: a meta-process that is told to end in the very callback of its owner that spawned
+// it. Whatever the order in which its Start goroutine, its mailbox goroutine and the owner get to
+// run: Terminate runs exactly once and nothing of the meta-process - its Start included - runs after it.
+func runC05EarlyEnd(e *simkit.Env, c *TCase) {
+	n := simkit.StartLocalNode(e, "t@sim", nil)
+	if n == nil {
+		return
+	}
+	defer simkit.StopNode(e, n, false, 0)
+	mh := &Hooks{Name: "meta", Env: e, Slow: true}
+	pm := NewProbeMeta(mh)
+	oh := &Hooks{Name: "owner", Env: e}
+	spawned := make(chan struct{})
+	oh.Message = func(p *Probe, from gen.PID, m any) error {
+		if m != "go" {
+			return nil
+		}
+		id, err := p.SpawnMeta(pm, gen.MetaOptions{})
+		if err != nil {
+			e.Fail("C05/unexpected-failure", "SpawnMeta: %v", err)
+			close(spawned)
+			return nil
+		}
+		for i := 0; i < c.MetaEarly; i++ {
+			p.Send(id, tMsg{ID: -3})
+		}
+		defer close(spawned)
+		switch c.EarlyEnd {
+		case 1:
+			if err := p.SendExitMeta(id, fmt.Errorf("xsig1")); err != nil {
+				e.Fail("C05/unexpected-failure", "SendExitMeta right after SpawnMeta: %v", err)
+			}
+		case 2:
+			return fmt.Errorf("boom1")
+		case 3:
+			panic("injected panic of the owner")
+		}
+		return nil
+	}
+	opid, err := n.Spawn(ProbeFactory(oh), gen.ProcessOptions{})
+	if err != nil {
+		e.Infra("spawn owner: " + err.Error())
+		return
+	}
+	n.Send(opid, "go")
+	if c.EarlyEnd == 4 {
+		e.Go("killer", func() {
+			e.WaitChan(spawned, time.Minute)
+			n.Kill(opid)
+		})
+	}
+	e.WaitClients(time.Minute)
+	e.WaitChan(spawned, time.Minute)
+	e.Settle(5 * time.Second)
+	if e.Failed() {
+		return
+	}
+	e.Probe("cause-exit")
+	log := mh.CallbackLog()
+	tc := int(mh.TermCount.Load())
+	if tc != 1 {
+		e.Fail("C05/terminated-without-callback", "meta early end %d: the meta-process was told to end in the callback that spawned it; its terminate callback ran %d times; callbacks: %s", c.EarlyEnd, tc, strings.Join(log, " "))
+		return
+	}
+	seenTerm := false
+	for _, cb := range log {
+		if cb == "terminate" {
+			seenTerm = true
+		} else if seenTerm {
+			e.Fail("C05/callback-after-terminate", "meta early end %d: %q of the meta-process ran after its terminate callback; callbacks: %s", c.EarlyEnd, cb, strings.Join(log, " "))
+			return
+		}
+	}
 }
